@@ -29,6 +29,35 @@ pub fn compute(world: &World, trace: &[Rec], v: &Violation) -> Vec<String> {
     if !v.diff.is_empty() && v.diff.iter().all(|l| l.facet == "cell.content" && l.actual != l.expected && l.actual.contains('@') && bare(&l.actual) == bare(&l.expected)) {
         tags.push("diff:only-added-intersection".into());
     }
+    // the cold evaluation gives an array of another shape (or an array where the live node
+    // shows a scalar): the formula's result depends on cells of its own potential spill area
+    if v.oracle == "fix-point" || v.oracle == "spill-exact" || v.oracle == "schedule-independent" {
+        let shape = |t: &str| t.split(" | ").next().unwrap_or("").to_string();
+        if v.diff.iter().any(|l| {
+            let (a, b) = (shape(&l.expected), shape(&l.actual));
+            (a.starts_with("dyn ") || b.starts_with("dyn ")) && a != b
+        }) {
+            tags.push("diff:array-shape-differs".into());
+        }
+    }
+    // re-typing (C18/C10)
+    if let Some(crate::ev::Ev::Retype { sheet, row, col }) = trace.get(v.culprit_event).map(|r| &r.ev) {
+        if trace[..v.culprit_event.min(trace.len())].iter().any(|r| matches!(r.ev, crate::ev::Ev::SetLocale { .. } | crate::ev::Ev::SetLanguage { .. }) && r.result == "ok") {
+            tags.push("trace:config-switch-before-retype".into());
+        }
+        if trace[..v.culprit_event.min(trace.len())].iter().any(|r| matches!(r.ev, crate::ev::Ev::ClearFormatting { .. } | crate::ev::Ev::ClearAll { .. } | crate::ev::Ev::PasteStyles { .. } | crate::ev::Ev::ApplyNamedStyle { .. }) && r.result == "ok") {
+            tags.push("trace:formatting-cleared-before-retype".into());
+        }
+        if matches!(world.primary.model().workbook.worksheet(*sheet).ok().and_then(|ws| ws.cell(*row, *col)), Some(ironcalc_base::types::Cell::CellFormula { .. }) | Some(ironcalc_base::types::Cell::ArrayFormula { .. })) {
+            tags.push("state:retyped-cell-is-formula".into());
+        }
+        if let Ok(st) = world.primary.model().get_style_for_cell(*sheet, *row, *col) {
+            let f = st.num_fmt.to_lowercase();
+            if f.contains('y') || f.contains('d') || f.contains("h:") || f.contains("mm") {
+                tags.push("state:retyped-cell-has-date-format".into());
+            }
+        }
+    }
     // state tags, on the primary node
     let model = world.primary.model();
     let units = deps::units(model);
@@ -53,7 +82,8 @@ pub fn compute(world: &World, trace: &[Rec], v: &Violation) -> Vec<String> {
     if !array_cyc.is_empty() && !v.cells.is_empty() && v.facets.iter().all(|f| f.starts_with("cell.")) {
         let down = deps::downstream(&units, &array_cyc);
         let all_down = v.cells.iter().all(|at| match deps::parse_at(at) {
-            Some((s, r, c)) => deps::unit_at(&units, s, r, c).map(|u| down.contains(&u)).unwrap_or(false),
+            // (a cell that differs only by being a spill child or not belongs to whichever array spills there)
+            Some((s, r, c)) => deps::unit_at(&units, s, r, c).map(|u| down.contains(&u)).unwrap_or(at.starts_with('~')),
             None => false,
         });
         if all_down {
@@ -65,7 +95,8 @@ pub fn compute(world: &World, trace: &[Rec], v: &Violation) -> Vec<String> {
     if !dyn_units.is_empty() && !v.cells.is_empty() && v.facets.iter().all(|f| f.starts_with("cell.")) {
         let down = deps::downstream(&units, &dyn_units);
         let all_down = v.cells.iter().all(|at| match deps::parse_at(at) {
-            Some((s, r, c)) => deps::unit_at(&units, s, r, c).map(|u| down.contains(&u)).unwrap_or(false),
+            // (a cell that differs only by being a spill child or not belongs to whichever array spills there)
+            Some((s, r, c)) => deps::unit_at(&units, s, r, c).map(|u| down.contains(&u)).unwrap_or(at.starts_with('~')),
             None => false,
         });
         if all_down {
